@@ -536,6 +536,69 @@ func genSites(repo, outDir string) error {
 			helpers[fd.Name.Name] = sum
 		}
 	}
+	// a function of internal/issues that only DELEGATES to a helper (CreateInvalidUnionError -> CreateInvalidUnionErrorWithInst
+	// since 455c79d) is a helper itself: its summary is the callee's, with the parameter positions mapped through the call
+	for changed := true; changed; {
+		changed = false
+		for _, ft := range files {
+			if filepath.Dir(ft.rel) != "internal/issues" {
+				continue
+			}
+			for _, d := range ft.f.Decls {
+				fd, ok := d.(*ast.FuncDecl)
+				if !ok || fd.Body == nil || fd.Recv != nil || helpers[fd.Name.Name] != nil || fd.Name.Name == "FinalizeIssue" {
+					continue
+				}
+				env := newEnv(fd.Type, fd.Body, nil)
+				ast.Inspect(fd.Body, func(n ast.Node) bool {
+					c, ok := n.(*ast.CallExpr)
+					if !ok || helpers[fd.Name.Name] != nil {
+						return true
+					}
+					h := helpers[calleeName(c, "")]
+					if h == nil || calleeQual(c) != "" {
+						return true
+					}
+					s := *h
+					mapArg := func(i int) int {
+						if i < 0 || i >= len(c.Args) {
+							return -1
+						}
+						if id, ok := c.Args[i].(*ast.Ident); ok {
+							if j, isP := env.params[id.Name]; isP {
+								return j
+							}
+						}
+						return -1
+					}
+					if h.ctxParam >= 0 {
+						s.ctxParam = mapArg(h.ctxParam)
+						if s.ctxParam < 0 && h.ctxParam < len(c.Args) {
+							s.ctxConst = env.classCtx(c.Args[h.ctxParam])
+						}
+					}
+					if h.cfgParam >= 0 {
+						s.cfgParam = mapArg(h.cfgParam)
+						if s.cfgParam < 0 {
+							s.cfgConst = "fallback"
+						}
+					}
+					if h.instParam >= 0 {
+						s.instParam = mapArg(h.instParam) // -1: the delegating call passes nil / a constant: no instance
+					}
+					if h.msgParam >= 0 {
+						s.msgParam = mapArg(h.msgParam)
+					}
+					if h.paramArg >= 0 {
+						s.paramArg = mapArg(h.paramArg)
+					}
+					helpers[fd.Name.Name] = &s
+					changed = true
+					return false
+				})
+			}
+		}
+	}
 	if len(helpers) < 15 {
 		return fmt.Errorf("only %d functions of internal/issues reach FinalizeIssue: the translator no longer recognises the helpers", len(helpers))
 	}
